@@ -22,6 +22,6 @@ Extraction "extracted.ml"
   Dmp.get_visible_text Dmp.compute_dmp_diff Dmp.html_source_diff Dmp.old_side Dmp.new_side
   Links.links_diff x_links_assemble_diff Links.page_links Links.clean_href x_links_count_changes Links.rebalance
   Links.same_key Links.rough_eq Links.dlink Difflib.get_opcodes Difflib.insensitive_opcodes
-  RenderMerge.htmldiff RenderMerge.prepare x_render_tokenize RenderMerge.token_opcodes RenderMerge.merge_changes
+  RenderMerge.htmldiff RenderMerge.prepare x_render_tokenize RenderMerge.token_opcodes RenderMerge.merge_changes RenderTokens.url_eq RenderTokens.rule_compare
   RenderMerge.merge_change_groups RenderMerge.reconcile_change_groups RenderMerge.assemble_diff RenderMerge.render_string
   Coq.Init.Nat.add BinInt.Z.add BinNat.N.to_nat.
